@@ -1,7 +1,7 @@
 (* C11 -- property theorems only.  Each is closed by `exact <lemma>`; statements are pinned in tools/pinned/C11.statements.
    Model: Model/ConnGuard.v (semaphore counter + per-attempt permit location); proofs: Proofs/ConnGuardFacts.v. *)
 From Coq Require Import List NArith Bool.
-From JV Require Import Model.ConnGuard Proofs.ConnGuardFacts.
+From JV Require Import Gen.ConnGuardGen Model.ConnGuard Proofs.ConnGuardFacts.
 Import ListNotations.
 Local Open Scope N_scope.
 
@@ -50,13 +50,25 @@ Theorem C11_can_always_finish : forall (s : state) (i : nat), holds (run_from s 
 Proof. exact can_always_finish. Qed.
 Print Assumptions C11_can_always_finish.
 
+(* a session whose receive loop ended for any reason other than a server stop -- the peer's Close, a receive error, the
+   server's own ping/pong inactivity close -- gives its slot back in graceful_shutdown however many of its handlers are
+   still running (x is arbitrary: nothing is assumed about a_pending x) *)
+Theorem C11_server_close_frees_slot_despite_pending_call : forall (s : state) (i : nat) (x : attempt) (c : cause), get s i = Some x -> a_phase x = PWsSession -> c <> CStopped -> let s' := run_from s [WsEnd i c; WsFinish i] in holds s' i = false /\ s_avail s' = s_avail s + 1.
+Proof. exact server_close_frees_slot. Qed.
+Print Assumptions C11_server_close_frees_slot_despite_pending_call.
+
+(* only a server stop waits for the session's pending calls, and even then a vanished peer ends the wait *)
+Theorem C11_stop_waits_only_for_pending_calls : forall (s : state) (i : nat) (x : attempt), get s i = Some x -> a_phase x = PWsClosing CStopped -> (a_pending x <> 0 -> step s (WsFinish i) = s) /\ (a_pending x = 0 -> holds (step s (WsFinish i)) i = false /\ s_avail (step s (WsFinish i)) = s_avail s + 1) /\ holds (step s (WsPeerGone i)) i = false /\ s_avail (step s (WsPeerGone i)) = s_avail s + 1.
+Proof. exact stop_waits_only_for_pending_calls. Qed.
+Print Assumptions C11_stop_waits_only_for_pending_calls.
+
 (* ---- non-vacuity ---- *)
 Definition c1 : cfg := {| c_max := 1; c_http := true; c_ws := true |}.
 
 (* limit 1: a WebSocket session takes the slot, an HTTP request is refused (429, its handler step is a no-op),
    the session ends, the next HTTP request is served and its handler runs *)
 Example C11_witness_refuse_then_reuse :
-  let tr := [Acquire KWs; Dispatch 0; Upgrade 0 true; Acquire KHttp; Dispatch 1; Handler 1; WsEnd 0; WsFinish 0;
+  let tr := [Acquire KWs; Dispatch 0; Upgrade 0 true; Acquire KHttp; Dispatch 1; Handler 1; WsEnd 0 CPeer; WsFinish 0;
              Acquire KHttp; Dispatch 2; Handler 2] in
   refused (run c1 tr) 1 = true /\ handlers_of (run c1 tr) 1 = 0 /\ refused (run c1 tr) 2 = false /\ handlers_of (run c1 tr) 2 = 1
   /\ served (run c1 tr) = 1 /\ s_avail (run c1 tr) = 0
@@ -66,7 +78,7 @@ Proof. vm_compute. repeat split. Qed.
 (* every exit path gives the slot back: failed handshake, denied, failed upgrade, dropped future, normal completion *)
 Example C11_witness_all_exits :
   let tr := [Acquire KWsBad; Dispatch 0; Acquire KWs; Dispatch 1; Upgrade 1 false; Acquire KHttp; Dispatch 2; DropFut 2;
-             Acquire KHttpGet; Dispatch 3; Respond 3; Acquire KWs; Dispatch 4; Upgrade 4 true; Handler 4; WsEnd 4; WsFinish 4] in
+             Acquire KHttpGet; Dispatch 3; Respond 3; Acquire KWs; Dispatch 4; Upgrade 4 true; Handler 4; WsEnd 4 CError; WsFinish 4] in
   all_terminated (run c1 tr) = true /\ s_avail (run c1 tr) = 1
   /\ map (fun a => a_status a) (s_att (run c1 tr)) = [200; 101; 0; 405; 101]
   /\ all_terminated (run {| c_max := 1; c_http := true; c_ws := false |} [Acquire KWs; Dispatch 0]) = true
@@ -77,3 +89,13 @@ Proof. vm_compute. repeat split. Qed.
 Example C11_witness_limit0 :
   refused (run {| c_max := 0; c_http := true; c_ws := true |} [Acquire KHttp]) 0 = true.
 Proof. vm_compute. reflexivity. Qed.
+
+(* limit 1, ws ping on: a session with a parked call goes silent, the server closes it for inactivity; the slot is back
+   although the call is still pending (a_pending = 1), and the next connection is served *)
+Example C11_witness_inactivity_close_with_pending_call :
+  let tr := [Acquire KWs; Dispatch 0; Upgrade 0 true; Handler 0; WsEnd 0 CInactive; WsFinish 0; Acquire KWs; Dispatch 1] in
+  pending_of (run c1 tr) 0 = 1 /\ holds (run c1 tr) 0 = false /\ refused (run c1 tr) 1 = false /\ holds (run c1 tr) 1 = true
+  /\ (* whereas a server stop does wait for it *)
+  holds (run c1 [Acquire KWs; Dispatch 0; Upgrade 0 true; Handler 0; WsEnd 0 CStopped; WsFinish 0]) 0 = true
+  /\ holds (run c1 [Acquire KWs; Dispatch 0; Upgrade 0 true; Handler 0; WsEnd 0 CStopped; HandlerDone 0; WsFinish 0]) 0 = false.
+Proof. vm_compute. repeat split. Qed.
